@@ -220,11 +220,11 @@ from Heads() only, a graph that is one cycle — a tandem repeat longer than the
 
 func init() {
 	register(&Rule{
-		ID: "HW", Props: []string{"C19"}, Min: 2,
+		ID: "HW", Props: []string{"C19"}, Min: 3,
 		Doc: `"no path is returned exactly when the graph has a cycle": an acyclic graph has a heaviest path whatever its weights. In (*DeBruijnGraph).HaviestPath (1) the running maximum starts below every
 weight (a negative constant): started at 0, a graph whose k-mers all weigh 0 — records carrying count 0 — never replaces the placeholder node 0, the path is rebuilt from it and the function
 panics "Cycle detected" on an acyclic graph; (2) the relaxation tells a node that was never reached from a node reached with weight 0: the map of the distances is read with the comma-ok form
-(or every node is given a distance beforehand); (3) a graph without any node returns before the search.`,
+(or every node is given a distance beforehand); (3) a graph without any node returns before the search; (4) every update of the running maximum is also taken at equal weight for a longer walk (weight == max && steps > maxSteps): with the weight alone, on k-mers that all weigh 0 the path stops at its first node — the consensus of reads carrying count:0 was their first k-mer.`,
 		Run: func(c *Ctx, s *Sink) {
 			fd, p := c.FindFunc("pkg/obikmer", "(*DeBruijnGraph).HaviestPath")
 			if fd == nil {
@@ -239,21 +239,73 @@ panics "Cycle detected" on an acyclic graph; (2) the relaxation tells a node tha
 				if !ok {
 					return true
 				}
-				b, ok := ast.Unparen(is.Cond).(*ast.BinaryExpr)
-				if !ok || b.Op != token.GTR {
-					return true
-				}
-				o := rootObj(info, b.Y)
-				if o == nil {
-					return true
-				}
-				for _, st := range is.Body.List {
-					if as, ok := st.(*ast.AssignStmt); ok && len(as.Lhs) == 1 && rootObj(info, as.Lhs[0]) == o && maxVar == nil {
-						maxVar = o
+				// the strict comparison, alone or as the first alternative of the condition
+				for _, dj := range disjunctsOf(is.Cond) {
+					b, ok := ast.Unparen(dj).(*ast.BinaryExpr)
+					if !ok || b.Op != token.GTR {
+						continue
+					}
+					o := rootObj(info, b.Y)
+					if o == nil {
+						continue
+					}
+					if _, isIdent := ast.Unparen(b.Y).(*ast.Ident); !isIdent {
+						continue
+					}
+					for _, st := range is.Body.List {
+						if as, ok := st.(*ast.AssignStmt); ok && len(as.Lhs) == 1 && rootObj(info, as.Lhs[0]) == o && maxVar == nil {
+							maxVar = o
+						}
 					}
 				}
 				return true
 			})
+			// (4) among equal weights the longest walk: every update of the maximum is also taken on equality with a second, strictly larger, quantity
+			key4 := "pkg/obikmer.(*DeBruijnGraph).HaviestPath:ties-broken-on-the-length-of-the-walk"
+			if maxVar != nil {
+				updates, tied := 0, 0
+				ast.Inspect(fd.Body, func(n ast.Node) bool {
+					is, ok := n.(*ast.IfStmt)
+					if !ok {
+						return true
+					}
+					assigns := false
+					for _, st := range is.Body.List {
+						if as, ok := st.(*ast.AssignStmt); ok && len(as.Lhs) == 1 && rootObj(info, as.Lhs[0]) == maxVar {
+							assigns = true
+						}
+					}
+					if !assigns {
+						return true
+					}
+					updates++
+					for _, dj := range disjunctsOf(is.Cond) {
+						eq, gt := false, false
+						for _, cj := range conjuncts(dj) {
+							if b, ok := ast.Unparen(cj).(*ast.BinaryExpr); ok {
+								if b.Op == token.EQL && (rootObj(info, b.X) == maxVar || rootObj(info, b.Y) == maxVar) {
+									eq = true
+								}
+								if (b.Op == token.GTR || b.Op == token.LSS) && rootObj(info, b.X) != maxVar && rootObj(info, b.Y) != maxVar {
+									gt = true
+								}
+							}
+						}
+						if eq && gt {
+							tied++
+						}
+					}
+					return true
+				})
+				switch {
+				case updates == 0:
+					s.Undecided(nil, key4, fd.Pos(), "no update of the running maximum found")
+				case tied < updates:
+					s.Fail(nil, key4, fd.Pos(), fmt.Sprintf("%d of the %d updates of the running maximum only take a strictly larger weight: on k-mers that weigh 0 (records carrying count:0 — a legal value) every walk weighs 0 and the path stops at its first node — the consensus of seven 60 bp reads is the 7 bases of the first k-mer, where a single sequence without repeated k-mer is to be returned unchanged; a weightless tail is dropped while a weightless head is kept", updates-tied, updates))
+				default:
+					s.Pass(nil, key4, fd.Pos(), fmt.Sprintf("%d updates, each also taken at equal weight for a longer walk", updates))
+				}
+			}
 			key1 := "pkg/obikmer.(*DeBruijnGraph).HaviestPath:running-maximum-starts-below-every-weight"
 			if maxVar == nil {
 				s.Undecided(nil, key1, fd.Pos(), "no running maximum found")
@@ -296,6 +348,92 @@ panics "Cycle detected" on an acyclic graph; (2) the relaxation tells a node tha
 			} else {
 				s.Fail(nil, key2, fd.Pos(), "a missing distance reads as 0: the successor of a node reached with weight 0 is never relaxed when its own weight is 0 — a graph mixing zero and positive counts is searched incompletely")
 			}
+		},
+	})
+}
+
+func init() {
+	register(&Rule{
+		ID: "SLB", Props: []string{"C19"}, Min: 1,
+		Doc: `"no path is returned exactly when the graph has a cycle" — and never a crash: in pkg/obikmer, a slice expression x[a:b] whose two bounds are variables each moved by a loop of the function (the trimming
+of the low-coverage ends of the consensus path: from grows from the left, to shrinks from the right) is dominated by a test of the two bounds against each other that leaves the function: a threshold above
+every weight of the path (--low-coverage 1.5) makes from = len(path) and to = 0 and path[from:to] panics "slice bounds out of range [54:0]".`,
+		Run: func(c *Ctx, s *Sink) {
+			c.EachFunc([]string{"pkg/obikmer"}, func(p *packages.Package, fd *ast.FuncDecl) {
+				info := p.TypesInfo
+				// variables assigned inside a loop
+				inLoop := map[types.Object]bool{}
+				ast.Inspect(fd.Body, func(n ast.Node) bool {
+					var body *ast.BlockStmt
+					switch x := n.(type) {
+					case *ast.ForStmt:
+						body = x.Body
+					case *ast.RangeStmt:
+						body = x.Body
+					}
+					if body == nil {
+						return true
+					}
+					ast.Inspect(body, func(m ast.Node) bool {
+						if as, ok := m.(*ast.AssignStmt); ok && as.Tok == token.ASSIGN {
+							for _, l := range as.Lhs {
+								if id, ok := l.(*ast.Ident); ok {
+									inLoop[info.ObjectOf(id)] = true
+								}
+							}
+						}
+						return true
+					})
+					return true
+				})
+				n := 0
+				ast.Inspect(fd.Body, func(nd ast.Node) bool {
+					se, ok := nd.(*ast.SliceExpr)
+					if !ok || se.Low == nil || se.High == nil {
+						return true
+					}
+					lo, ok1 := ast.Unparen(se.Low).(*ast.Ident)
+					hi, ok2 := ast.Unparen(se.High).(*ast.Ident)
+					if !ok1 || !ok2 {
+						return true
+					}
+					lob, hib := info.ObjectOf(lo), info.ObjectOf(hi)
+					if !inLoop[lob] || !inLoop[hib] {
+						return true
+					}
+					n++
+					key := fmt.Sprintf("%s:slice#%d:bounds-compared-before", funcName(p, fd), n)
+					guarded := false
+					ast.Inspect(fd.Body, func(m ast.Node) bool {
+						is, ok := m.(*ast.IfStmt)
+						if !ok || is.Pos() > se.Pos() || !leavesOrFatal(info, is.Body) {
+							return true
+						}
+						hasLo, hasHi := false, false
+						ast.Inspect(is.Cond, func(q ast.Node) bool {
+							if id, ok := q.(*ast.Ident); ok {
+								if info.ObjectOf(id) == lob {
+									hasLo = true
+								}
+								if info.ObjectOf(id) == hib {
+									hasHi = true
+								}
+							}
+							return true
+						})
+						if hasLo && hasHi {
+							guarded = true
+						}
+						return true
+					})
+					if guarded {
+						s.Pass(nil, key, se.Pos(), "the two bounds are compared, and the function left, before the slice is taken")
+					} else {
+						s.Fail(nil, key, se.Pos(), "the bounds "+lo.Name+" and "+hi.Name+" are each moved by a loop and the slice is taken without comparing them: when the two loops cross ("+lo.Name+" = len, "+hi.Name+" = 0 — a coverage threshold above every weight of the path, --low-coverage 1.5) the expression panics, obiconsensus dies with a stack trace")
+					}
+					return true
+				})
+			})
 		},
 	})
 }
